@@ -14,6 +14,7 @@ use std::sync::Arc;
 
 mod alloc;
 mod casts;
+mod generic;
 mod life;
 mod shapes;
 
@@ -54,6 +55,7 @@ fn main() {
         alloc::domain(1);
         let rows = match hdr[0] {
             101 => shapes::run(&hdr[1..], &ops, &mut mon),
+            102 => generic::run(&hdr[1..], &ops, &mut mon),
             106 => life::run(&hdr[1..], &ops, &mut mon),
             108 => casts::run(&hdr[1..], &ops, &mut mon),
             _ => vec![vec![-3]],
